@@ -18,7 +18,7 @@ def delete_fields(fields, resources=None, regex=True):
         matcher = ResourceMatcher(resources, package.pkg)
         dp_resources = package.pkg.descriptor.get('resources', [])
         field_res = [
-            re.compile('^(?:{})\\Z'.format(f if regex else re.escape(f))) for f in fields
+            re.compile(f if regex else re.escape(f)) for f in fields
         ]
         matched = set()
         new_field_names = {}
@@ -29,7 +29,7 @@ def delete_fields(fields, resources=None, regex=True):
                 for sf in schema_fields:
                     skip = False
                     for f in field_res:
-                        if f.match(sf['name']):
+                        if f.fullmatch(sf['name']):
                             skip = True
                             matched.add(f.pattern)
                             break
